@@ -1,5 +1,6 @@
 import Lean.Data.Json
 import SpoxModel.Model.Ctx
+import SpoxModel.Model.CtxProg
 import SpoxModel.Generated.CtxIR
 /-! Line-protocol handler for C16: run a block history on the model (with the IR generated from
     /repo) and report the final settings and every snapshot. -/
@@ -16,8 +17,38 @@ partial def parseBlock (j : Json) : Except String Block := do
     return .withB ⟨which, h⟩ arg inner raises
   else throw "bad manager index"
 
+partial def parseCmd (j : Json) : Except String Cmd := do
+  let op ← j.getObjValAs? String "op"
+  let fin3 (k : String) : Except String (Fin 3) := do
+    let n ← j.getObjValAs? Nat k
+    if h : n < 3 then return ⟨n, h⟩ else throw "bad setting index"
+  let body : Except String (List Cmd) := do
+    let bj ← j.getObjValAs? (Array Json) "body"
+    bj.toList.mapM parseCmd
+  match op with
+  | "with" => return .withC (← fin3 "which") (← j.getObjValAs? Nat "arg") (← body)
+  | "set" => return .set (← fin3 "which") (← j.getObjValAs? Nat "v")
+  | "snap" => return .snap
+  | "raise" => return .raise
+  | "try" => return .tryC (← body)
+  | _ => throw s!"unknown command {op}"
+
+/-- A block *program* (round 10): run through the managers' IR generated from /repo (`runCmds`); the result is
+    what `Props/C16.lean` proves equal to the IR-free specification. -/
+def handleProg (req : Json) (progJ : Array Json) : Except String Json := do
+  let cs ← progJ.toList.mapM parseCmd
+  let init ← req.getObjValAs? (Array Nat) "init"
+  let g : Globals := fun i => init.getD i.val 0
+  let r := runCmds Generated.CtxIR.managers cs ⟨g, []⟩
+  return Json.mkObj [
+    ("glob", toJson [r.1.glob 0, r.1.glob 1, r.1.glob 2]),
+    ("log", toJson r.1.log),
+    ("raised", toJson (r.2 == .exn))]
+
 def handle (req : Json) : Json :=
   match (do
+    if let .ok progJ := req.getObjValAs? (Array Json) "prog" then
+      return ← handleProg req progJ
     let bsJ ← req.getObjValAs? (Array Json) "blocks"
     let bs ← bsJ.toList.mapM parseBlock
     let init ← req.getObjValAs? (Array Nat) "init"
